@@ -188,7 +188,13 @@ pub fn into_tokens(c: char, it: &mut Peekable<Chars>, state: &mut State) -> LexR
 
                     if c == '{' {
                         if build_cur_expr == 0 {
-                            cur_offset = state.pos.offset_pos(string.len() + 1);
+                            // position of first character after the opening bracket
+                            cur_offset = if let Some(newline) = string.rfind('\n') {
+                                let line = state.pos.line + string.matches('\n').count();
+                                CaretPos::new(line, string.len() - newline)
+                            } else {
+                                state.pos.offset_pos(string.len() + 1)
+                            };
                         }
                         build_cur_expr += 1;
                     } else if c == '}' {
@@ -222,7 +228,15 @@ pub fn into_tokens(c: char, it: &mut Peekable<Chars>, state: &mut State) -> LexR
                     .map(|(offset, string)| match tokenize_direct(string) {
                         Ok(tokens) => Ok(tokens
                             .iter()
-                            .map(|lex| Lex::new(lex.pos.offset(offset).start, lex.token.clone()))
+                            .map(|lex| {
+                                let start = if lex.pos.start.line == 1 {
+                                    lex.pos.start.offset(offset)
+                                } else {
+                                    // only the first line of an expression is offset horizontally
+                                    lex.pos.start.offset(&CaretPos::new(offset.line, 1))
+                                };
+                                Lex::new(start, lex.token.clone())
+                            })
                             .collect()),
                         Err(err) => Err(err),
                     })
